@@ -36,7 +36,8 @@ QUICK_VALIDATE = 4
 def cases(tier):
     out = [dict(kind='negotiate'), dict(kind='keepalive', traffic=0), dict(kind='keepalive', traffic=1),
            dict(kind='keepalive', traffic=2), dict(kind='keepalive', traffic=3),
-           dict(kind='idle', peer='silent'), dict(kind='idle', peer='alive'), dict(kind='idle', peer='trickle'),
+           dict(kind='idle', peer='silent'), dict(kind='idle', peer='silent', pending=1), dict(kind='idle', peer='alive'),
+           dict(kind='idle', peer='trickle'),
            dict(kind='modulate', acks=2)]
     if tier == 'thorough':
         out.append(dict(kind='modulate', acks=3))
@@ -224,6 +225,12 @@ def harness(case, tier):
     if kind == 'idle':
         c.assume(idle_a > 0)
         c.assume(ka_b == 0)
+        if case.get('pending'):
+            # an own transfer is sent but never acknowledged: the peer has gone silent
+            ln = c.sym_int('len', 1, 2 ** 64 - 1, size=True)
+            c.assume(ln <= w.a._send_segment_size)
+            w.a.send_bundle_fileobj(BytesIO(c.sym_blob('bundle', ln)))
+            w.run(300, sides=('A',))
         src = w.advance_to_next_timer()
         c.prove(src is not None and src.func.__name__ == '_idle_timeout', 'idle-timer-armed')
         if src is None:
